@@ -26,6 +26,11 @@ VARIABLES file,        \* [c |-> content, m |-> mtime]
           steps, lastPolled, hist
 vars == <<file, rl, active, rate, alive, swaps, ret, steps, lastPolled, hist>>
 Valid(v, r) == [k |-> "valid", v |-> v, r |-> r]
+\* The most verbose level of version v's configuration (numbered as in LevelGate.tla: 3 = info, 5 = trace).  The
+\* root is at info in every version; one logger is at trace in odd versions and at warn in even ones.  Once a
+\* version is applied the process-wide maximum of the log facade is this value - whatever it was before, and
+\* whether or not the root level changed.
+MaxLevel(v) == IF v % 2 = 1 THEN 5 ELSE 3
 Broken(i)   == [k |-> "broken", v |-> i, r |-> 0]
 Contents == {Valid(v, r) : v \in Vers, r \in Rates} \cup {Broken(1), Broken(2)}
 Absent == [k |-> "absent", v |-> 0, r |-> 0]
